@@ -44,16 +44,48 @@ _OBJ_PREFIX = {"taxa": "t", "vrnt_name": "v", "vrnt_hapalt": "A", "vrnt_hapref":
 _FLOAT_DIV = {"vrnt_genpos": 8.0, "vrnt_xoprob": 64.0}
 
 
+# integer label columns are rendered far outside the int8 / int16 / int32 ranges (a narrowing cast must show)
+_INT_AFFINE = {"taxa_grp": (1000, 100000), "vrnt_chrgrp": (1000, 70000), "vrnt_hapgrp": (1000, 40000),
+               "vrnt_phypos": (100000007, 3000000000)}
+
+
+def _name_str(prefix, c):
+    """variable-length, order-preserving name of a non-negative code: prefix, number of digits, digits
+    ("t15" < "t210" < "t3100": a fixed-width string dtype that truncates names must show)"""
+    d = str(c)
+    return f"{prefix}{len(d)}{d}"
+
+
+def _name_code(name, x):
+    p = _OBJ_PREFIX[name]
+    if not isinstance(x, str) or not x.startswith(p) or len(x) < 3 or not x[1:].isdigit() or int(x[1]) != len(x) - 2:
+        raise ValueError(f"label {x!r} in {name} was never created by the harness")
+    return int(x[2:])
+
+
 def render_col(name, codes):
     if codes is None:
         return None
     if name in _OBJ_PREFIX:
-        return numpy.array([None if c == NONE_CODE else f"{_OBJ_PREFIX[name]}{c:06d}" for c in codes], dtype=object)
+        return numpy.array([None if c == NONE_CODE else _name_str(_OBJ_PREFIX[name], c) for c in codes], dtype=object)
     if name in _FLOAT_DIV:
         return numpy.array([c / _FLOAT_DIV[name] for c in codes], dtype="float64")
     if name == "vrnt_mask":
         return numpy.array([bool(c) for c in codes], dtype=bool)
+    if name in _INT_AFFINE:
+        m, b = _INT_AFFINE[name]
+        return numpy.array([c * m + b for c in codes], dtype="int64")
     return numpy.array(codes, dtype="int64")
+
+
+def decode_int(name, x):
+    x = int(x)
+    if name in _INT_AFFINE:
+        m, b = _INT_AFFINE[name]
+        if (x - b) % m != 0:
+            raise ValueError(f"label {x!r} in {name} was never created by the harness")
+        return (x - b) // m
+    return x
 
 
 def decode_col(name, arr):
@@ -64,9 +96,7 @@ def decode_col(name, arr):
         if name in _OBJ_PREFIX and x is None:
             out.append(NONE_CODE)
         elif name in _OBJ_PREFIX:
-            if not isinstance(x, str) or not x.startswith(_OBJ_PREFIX[name]):
-                raise ValueError(f"label {x!r} in {name} was never created by the harness")
-            out.append(int(x[1:]))
+            out.append(_name_code(name, x))
         elif name in _FLOAT_DIV:
             v = float(x) * _FLOAT_DIV[name]
             if v != int(v):
@@ -75,7 +105,7 @@ def decode_col(name, arr):
         elif name == "vrnt_mask":
             out.append(int(bool(x)))
         else:
-            out.append(int(x))
+            out.append(decode_int(name, x))
     return out
 
 
@@ -102,6 +132,26 @@ CLASSES = {
                                            taxa=[0, 1], vrnt=[], trait=[], dtype="float64", square_check=True),
     "DenseSquareTaxaTraitMatrix": dict(mod="pybrops.core.mat.DenseSquareTaxaTraitMatrix", ndim=3,
                                        taxa=[0, 1], vrnt=[], trait=[2], dtype="float64", pure_drops_other=True),
+    # secondary entry points: concrete subclasses that inherit the anchored methods
+    "DenseVanRadenCoancestryMatrix": dict(mod="pybrops.popgen.cmat.DenseVanRadenCoancestryMatrix", ndim=2,
+                                          taxa=[0, 1], vrnt=[], trait=[], dtype="float64", square_check=True),
+    "DenseTwoWayDHAdditiveGeneticVarianceMatrix": dict(
+        mod="pybrops.model.vmat.DenseTwoWayDHAdditiveGeneticVarianceMatrix", ndim=3,
+        taxa=[0, 1], vrnt=[], trait=[2], dtype="float64", pure_drops_other=True),
+    "DenseGenomicEstimatedBreedingValueMatrix": dict(
+        mod="pybrops.popgen.bvmat.DenseGenomicEstimatedBreedingValueMatrix", ndim=2,
+        taxa=[0], vrnt=[], trait=[1], dtype="float64", bv=True, kinds=["taxa"],
+        skip_ops=("append", "incorp", "concat")),
+    # more than two square taxa axes (square_taxa_axes = range(ndim - 1)): N-D model, driver ops c03.nd_*
+    "DenseSquareTaxaTraitMatrix@4": dict(mod="pybrops.core.mat.DenseSquareTaxaTraitMatrix",
+                                         cls="DenseSquareTaxaTraitMatrix", ndim=4,
+                                         taxa=[0, 1, 2], vrnt=[], trait=[3], dtype="float64", pure_drops_other=True),
+    "DenseThreeWayDHAdditiveGeneticVarianceMatrix": dict(
+        mod="pybrops.model.vmat.DenseThreeWayDHAdditiveGeneticVarianceMatrix", ndim=4,
+        taxa=[0, 1, 2], vrnt=[], trait=[3], dtype="float64", pure_drops_other=True),
+    "DenseFourWayDHAdditiveGenicVarianceMatrix": dict(
+        mod="pybrops.model.vmat.DenseFourWayDHAdditiveGenicVarianceMatrix", ndim=5,
+        taxa=[0, 1, 2, 3], vrnt=[], trait=[4], dtype="float64", pure_drops_other=True),
     "DenseTaxaMatrix": dict(mod="pybrops.core.mat.DenseTaxaMatrix", ndim=2,
                             taxa=[0], vrnt=[], trait=[], dtype="float64"),
     "DenseVariantMatrix": dict(mod="pybrops.core.mat.DenseVariantMatrix", ndim=2,
@@ -116,7 +166,7 @@ def get_class(name):
     if name not in _CLS_CACHE:
         compat.import_pybrops()
         import importlib
-        _CLS_CACHE[name] = getattr(importlib.import_module(CLASSES[name]["mod"]), name)
+        _CLS_CACHE[name] = getattr(importlib.import_module(CLASSES[name]["mod"]), CLASSES[name].get("cls", name))
     return _CLS_CACHE[name]
 
 
@@ -143,18 +193,37 @@ def op_kinds_of(cname):
 
 # ------------------------------------------------------------------------------------------------
 # codes <-> numpy
-def render_mat(cname, mat3):
+def is_nd(cname):
+    """more than two square taxa axes: the state's `mat` has the class's own depth (4 or 5 levels) and the Lean
+    side is Model/LabelMatN.lean (driver ops c03.nd_step / c03.nd_spec)"""
+    return CLASSES[cname]["ndim"] > 3
+
+
+def render_mat(cname, mat3, layout="C"):
     d = CLASSES[cname]
     a = numpy.array(mat3, dtype="int64")
-    if a.ndim != 3:
-        raise ValueError("mat codes must be 3-level")
-    if d["ndim"] == 2:
-        a = a[:, :, 0]
+    if is_nd(cname):
+        if a.ndim != d["ndim"]:
+            raise ValueError(f"mat codes must be {d['ndim']}-level")
+    else:
+        if a.ndim != 3:
+            raise ValueError("mat codes must be 3-level")
+        if d["ndim"] == 2:
+            a = a[:, :, 0]
     if d["dtype"] == "float64":
         f = a.astype("float64")
         f[a == NAN_CODE] = numpy.nan
-        return f
-    return a.astype(d["dtype"])
+        out = f
+    else:
+        out = a.astype(d["dtype"])
+    if layout == "F":
+        out = numpy.asfortranarray(out)
+    elif layout == "strided":
+        # a non-contiguous view: every second element of a buffer twice as long on the last axis
+        buf = numpy.zeros(out.shape[:-1] + (2 * out.shape[-1],), dtype=out.dtype)
+        buf[..., ::2] = out
+        out = buf[..., ::2]
+    return out
 
 
 def decode_mat(cname, arr):
@@ -171,6 +240,10 @@ def decode_mat(cname, arr):
         a = codes.astype("int64")
     else:
         a = a.astype("int64")
+    if is_nd(cname):
+        if a.ndim != d["ndim"]:
+            raise ValueError(f"mat has ndim {a.ndim}")
+        return a.tolist()
     if a.ndim == 2:
         a = a[:, :, None]
     if a.ndim != 3:
@@ -178,26 +251,46 @@ def decode_mat(cname, arr):
     return a.tolist()
 
 
-def label_kwargs(cname, st):
+def render_label(name, codes, layout="C"):
+    a = render_col(name, codes)
+    if a is not None and layout == "strided":
+        # a non-contiguous view into a buffer whose other half holds values no label was ever rendered to
+        buf = numpy.empty(2 * len(a), dtype=a.dtype)
+        buf[::2] = a
+        if a.dtype == object:
+            buf[1::2] = "never-a-label"
+        elif a.dtype == bool:
+            buf[1::2] = ~a
+        elif a.dtype.kind == "f":
+            buf[1::2] = 0.123
+        else:
+            buf[1::2] = -7
+        a = buf[::2]
+    return a
+
+
+def label_kwargs(cname, st, layout="C"):
     kw = {}
     for k in kinds_of(cname):
         for name, codes in zip(COLS[k], st[k]["cols"]):
-            kw[name] = render_col(name, codes)
+            kw[name] = render_label(name, codes, layout)
     return kw
 
 
-def build(cname, st):
-    """state codes -> a fresh object of the real class (group metadata assigned when the state has them)"""
+def build(cname, st, layout="C"):
+    """state codes -> a fresh object of the real class (group metadata assigned when the state has them).
+    `layout`: memory layout of the arrays handed to the constructor ("C", "F" = Fortran-ordered data,
+    "strided" = non-contiguous views for the data and for every label array)"""
     cls = get_class(cname)
     if CLASSES[cname].get("bv"):
-        obj = cls.from_numpy(render_mat(cname, st["mat"]), **label_kwargs(cname, st))
+        obj = cls.from_numpy(render_mat(cname, st["mat"], layout), **label_kwargs(cname, st, layout))
     else:
-        obj = cls(render_mat(cname, st["mat"]), **label_kwargs(cname, st))
+        obj = cls(render_mat(cname, st["mat"], layout), **label_kwargs(cname, st, layout))
     for k in ("taxa", "vrnt"):
         g = st[k].get("grp") if CLASSES[cname][k] else None
         if g:
             p = GRP_ATTR[k]
-            setattr(obj, p + "_name", numpy.array(g["name"], dtype="int64"))
+            setattr(obj, p + "_name", render_col(p, g["name"]))
             setattr(obj, p + "_stix", numpy.array(g["stix"], dtype="int64"))
             setattr(obj, p + "_spix", numpy.array(g["spix"], dtype="int64"))
             setattr(obj, p + "_len", numpy.array(g["len"], dtype="int64"))
@@ -220,7 +313,7 @@ def observe(cname, obj):
             if grouped != all(x is not None for x in parts):
                 raise ValueError("is_grouped disagrees with the metadata attributes")
             if grouped:
-                grp = {"name": [int(x) for x in parts[0]], "stix": [int(x) for x in parts[1]],
+                grp = {"name": [decode_int(p, x) for x in parts[0]], "stix": [int(x) for x in parts[1]],
                        "spix": [int(x) for x in parts[2]], "len": [int(x) for x in parts[3]]}
         st[k] = {"cols": cols, "grp": grp}
     return st
@@ -231,8 +324,34 @@ def empty_bundle(k):
 
 
 def shape_of(st):
-    m = st["mat"]
-    return (len(m), len(m[0]) if m else 0, len(m[0][0]) if m and m[0] else 0)
+    return numpy.array(st["mat"], dtype="int64").shape
+
+
+_FP_EXTRA = ("location", "scale")
+
+
+def fingerprint(cname, obj):
+    """cheap content fingerprint of every public array of an object (used to notice that an object some step
+    did not operate on has changed; a full `observe` follows only when it differs)"""
+    d = CLASSES[cname]
+    names = ["mat"]
+    for k in KINDS:
+        if d[k]:
+            names += COLS[k]
+            if k in GRP_ATTR:
+                names += [GRP_ATTR[k] + sfx for sfx in ("_name", "_stix", "_spix", "_len")]
+    if d.get("bv"):
+        names += list(_FP_EXTRA)
+    out = []
+    for n in names:
+        a = getattr(obj, n, None)
+        if a is None:
+            out.append(None)
+        elif isinstance(a, numpy.ndarray):
+            out.append((a.shape, tuple(a.tolist())) if a.dtype == object else (a.shape, a.tobytes()))
+        else:
+            out.append(repr(a))
+    return out
 
 
 # ------------------------------------------------------------------------------------------------
@@ -259,28 +378,62 @@ def drv_obj(o):
 
 
 # ------------------------------------------------------------------------------------------------
+DECOY = {"name": 100000, "int": 50}
+
+
+def decoy_codes(name, codes):
+    """labels that differ from `codes` everywhere (they must never reach a result)"""
+    if codes is None:
+        return None
+    if name in _OBJ_PREFIX:
+        return [c + DECOY["name"] for c in codes]
+    if name == "vrnt_mask":
+        return [1 - c for c in codes]
+    return [c + DECOY["int"] for c in codes]
+
+
+def step_form(step):
+    """how the operand of adjoin / append / insert / incorp is passed:
+      raw    : ndarray + every label as keyword
+      obj    : a matrix object of the receiver's class carrying the labels, no label keyword
+      obj_kw : a matrix object whose columns listed in `override` carry other labels (or none at all) while the
+               call passes the real ones as keywords (documented: the keyword overwrites the field)"""
+    if "form" in step:
+        return step["form"]
+    return "raw" if step.get("raw") else "obj"
+
+
 class Runner:
-    """drives one real object through a history"""
+    """drives real objects through a history"""
 
     def __init__(self, cname):
         self.cname = cname
         self.cls = get_class(cname)
 
-    def operand_obj(self, live, k, opd):
-        """a matrix object of the same class holding the operand block: labels of bundle `k` from the case,
-        every other bundle's labels copied from the live object (positional alignment on the unedited axes)"""
+    def operand_obj(self, live, k, opd, decoy=None):
+        """a matrix object of the same class holding the operand block: labels of bundle `k` from the case
+        (`decoy`: per column None = the real labels, "other" = other labels, "none" = no array), every other
+        bundle's labels copied from the live object (positional alignment on the unedited axes)"""
         live_st = observe(self.cname, live)
+        cols = list(opd["cols"])
+        if decoy:
+            for ci, how in enumerate(decoy):
+                if how == "other":
+                    cols[ci] = decoy_codes(COLS[k][ci], cols[ci])
+                elif how == "none":
+                    cols[ci] = None
         st = {"mat": opd["mat"]}
         for kk in KINDS:
             if kk == k:
-                st[kk] = {"cols": opd["cols"], "grp": None}
+                st[kk] = {"cols": cols, "grp": None}
             else:
                 st[kk] = {"cols": live_st[kk]["cols"], "grp": None}
         return build(self.cname, st), st
 
-    def call(self, live, step):
-        """performs the step on `live`; returns (kind_of_result, value): ('obj', new object) for pure
-        operations, ('self', None) for mutating ones, ('val', json) for lexsort / is_grouped"""
+    def call(self, live, step, keep=None):
+        """performs the step on `live`; returns (kind_of_result, value, operand objects): ('obj', new object) for
+        pure operations, ('self', None) for mutating ones, ('val', json) for lexsort / is_grouped.  `keep` is
+        called with the operand objects after they are built and before the operation runs"""
         name, k = step["name"], step["kind"]
         generic = bool(step.get("generic"))
         sfx = "" if generic else "_" + k
@@ -288,16 +441,26 @@ class Runner:
         f = getattr(live, name + sfx) if name != "concat" else getattr(self.cls, name + sfx)
         if name == "select":
             idx = step["indices"]
-            arg = numpy.array(idx, dtype="int64") if step.get("as_array") else list(idx)
-            return "obj", f(arg, **akw)
+            how = step.get("as_array")
+            if how in (True, "int64"):
+                arg = numpy.array(idx, dtype="int64")
+            elif how == "int32":
+                arg = numpy.array(idx, dtype="int32")
+            elif how == "tuple":
+                arg = tuple(idx)
+            else:
+                arg = list(idx)
+            return "obj", f(arg, **akw), []
         if name == "delete":
-            return "obj", f(py_obj(step["obj"]), **akw)
+            return "obj", f(py_obj(step["obj"]), **akw), []
         if name == "remove":
             f(py_obj(step["obj"]), **akw)
-            return "self", None
+            return "self", None, []
         if name == "reorder":
-            f(numpy.array(step["indices"], dtype="int64"), **akw)
-            return "self", None
+            how = step.get("as_array", True)
+            f(numpy.array(step["indices"], dtype="int32" if how == "int32" else "int64") if how else list(step["indices"]),
+              **akw)
+            return "self", None, []
         if name in ("lexsort", "sort"):
             keys = step.get("keys")
             kw = dict(akw)
@@ -307,28 +470,40 @@ class Runner:
                 kw["keys"] = None
             r = f(**kw)
             if name == "lexsort":
-                return "val", [int(x) for x in r]
-            return "self", None
+                return "val", [int(x) for x in r], []
+            return "self", None, []
         if name in ("group", "ungroup"):
             f(**akw)
-            return "self", None
+            return "self", None, []
         if name == "is_grouped":
-            return "val", bool(f(**akw))
+            return "val", bool(f(**akw)), []
         if name in ("adjoin", "append", "insert", "incorp"):
             opd = step["operand"]
-            if step.get("raw"):
+            form = step_form(step)
+            opds = []
+            if form == "raw":
                 values = render_mat(self.cname, opd["mat"])
                 kw = {n: render_col(n, c) for n, c in zip(COLS[k], opd["cols"])}
-            else:
+            elif form == "obj":
                 values, _ = self.operand_obj(live, k, opd)
+                opds = [values]
                 kw = {}
+            else:
+                decoy = step["override"]
+                values, _ = self.operand_obj(live, k, opd, decoy)
+                opds = [values]
+                kw = {n: render_col(n, c) for n, c, how in zip(COLS[k], opd["cols"], decoy) if how is not None}
             kw.update(akw)
+            if keep is not None:
+                keep(opds)
             args = (py_obj(step["obj"]), values) if name in ("insert", "incorp") else (values,)
             r = f(*args, **kw)
-            return ("obj", r) if name in ("adjoin", "insert") else ("self", None)
+            return (("obj", r) if name in ("adjoin", "insert") else ("self", None)) + (opds,)
         if name == "concat":
             others = [self.operand_obj(live, k, o)[0] for o in step["others"]]
-            return "obj", f([live] + others, **akw)
+            if keep is not None:
+                keep(others)
+            return "obj", f([live] + others, **akw), others
         raise ValueError(name)
 
 
@@ -340,82 +515,114 @@ def _same(a, b):
     return a == b
 
 
+def _exc_rec(rec, e):
+    if isinstance(e, RecursionError):
+        rec["error"] = "unsupported"
+        rec["error_text"] = "RecursionError"
+    else:
+        rec["error"] = canon.exc_tag(e)
+        rec["error_text"] = f"{type(e).__name__}: {e}"[:200]
+
+
+class Heap:
+    """every object a history has produced or used stays alive here, with the state it was last verified in;
+    after every step all of them are looked at again (an operation on one object must not reach another one
+    through label arrays the two happen to share)"""
+
+    def __init__(self, cname):
+        self.cname = cname
+        self.objs = []          # receivers: the initial object and every result of a non-mutating operation
+        self.snaps = []
+        self.fps = []
+        self.extra = []         # operand objects: [obj, fingerprint, state, step index]
+
+    def add(self, obj):
+        self.objs.append(obj)
+        self.snaps.append(observe(self.cname, obj))
+        self.fps.append(fingerprint(self.cname, obj))
+        return len(self.objs) - 1
+
+    def refresh(self, j):
+        self.snaps[j] = observe(self.cname, self.objs[j])
+        self.fps[j] = fingerprint(self.cname, self.objs[j])
+
+    def fields(self):
+        d = CLASSES[self.cname]
+        out = ["mat"]
+        for k in KINDS:
+            if d[k]:
+                out += COLS[k]
+                if k in GRP_ATTR:
+                    out += [GRP_ATTR[k] + sfx for sfx in ("_name", "_stix", "_spix", "_len")]
+        return out
+
+    def shares(self):
+        """[a, b, field]: objects a < b hold the same ndarray (or overlapping memory) in `field`"""
+        out = []
+        flds = self.fields()
+        arrs = [[getattr(o, f, None) for f in flds] for o in self.objs]
+        for a in range(len(self.objs)):
+            for b in range(a + 1, len(self.objs)):
+                for f, x, y in zip(flds, arrs[a], arrs[b]):
+                    if x is None or y is None or not isinstance(x, numpy.ndarray) or not isinstance(y, numpy.ndarray):
+                        continue
+                    if x is y or (x.size and y.size and numpy.may_share_memory(x, y) and numpy.shares_memory(x, y)):
+                        out.append([a, b, f])
+        return out
+
+    def changed(self, skip=(), si=None):
+        """objects whose public state differs from the last verified one (their snapshots are refreshed)"""
+        out = []
+        for j, o in enumerate(self.objs):
+            if j in skip:
+                continue
+            fp = fingerprint(self.cname, o)
+            if fp != self.fps[j]:
+                try:
+                    now = observe(self.cname, o)
+                except Exception as e:
+                    now = {"unreadable": f"{type(e).__name__}: {e}"[:200]}
+                if now != self.snaps[j]:
+                    out.append({"id": j, "role": "object", "before": self.snaps[j], "after": now})
+                    if "unreadable" not in now:
+                        self.snaps[j] = now
+                self.fps[j] = fp
+        for ent in self.extra:
+            fp = fingerprint(self.cname, ent[0])
+            if fp != ent[1]:
+                try:
+                    now = observe(self.cname, ent[0])
+                except Exception as e:
+                    now = {"unreadable": f"{type(e).__name__}: {e}"[:200]}
+                if now != ent[2]:
+                    out.append({"id": f"operand of step {ent[3]}", "role": "operand" if ent[3] == si else "object",
+                                "before": ent[2], "after": now})
+                    if "unreadable" not in now:
+                        ent[2] = now
+                ent[1] = fp
+        return out
+
+
 def run_history(case):
     cname = case["cls"]
     rn = Runner(cname)
-    live = build(cname, case["init"])
+    heap = Heap(cname)
+    heap.add(build(cname, case["init"], case.get("layout", "C")))
     steps_out = []
-    for step in case["steps"]:
-        rec = {"pre": observe(cname, live)}
+    for si, step in enumerate(case["steps"]):
+        rid = step.get("on")
+        if rid is None or not (0 <= rid < len(heap.objs)):
+            rid = len(heap.objs) - 1
+        live = heap.objs[rid]
+        rec = {"on": rid, "pre": heap.snaps[rid]}
         k = step["kind"]
-        # operand objects are rebuilt for every call so that each call sees pristine operands
-        trial = copy.deepcopy(live)
-        operand_before = None
-        try:
-            kind, val = rn.call(trial, step)
-            rec["error"] = None
-        except RecursionError as e:
-            kind, val = "exc", None
-            rec["error"] = "unsupported"
-            rec["error_text"] = "RecursionError"
-        except Exception as e:                      # recorded; the judge decides what it means
-            kind, val = "exc", None
-            rec["error"] = canon.exc_tag(e)
-            rec["error_text"] = f"{type(e).__name__}: {e}"[:200]
-        if kind == "exc":
-            # a failed call must not have changed the receiver (checked for information only)
-            try:
-                rec["receiver_after_error"] = observe(cname, trial)
-            except Exception as e:
-                rec["receiver_after_error"] = f"unreadable: {e}"[:100]
-            steps_out.append(rec)
-            continue                                 # the history goes on from the untouched `live`
-        try:
-            if kind == "obj":
-                rec["post"] = observe(cname, val)
-                rec["self_unchanged"] = _same(observe(cname, trial), rec["pre"])
-                nxt = val
-            elif kind == "self":
-                rec["post"] = observe(cname, trial)
-                nxt = trial
-            else:
-                rec["value"] = val
-                rec["self_unchanged"] = _same(observe(cname, trial), rec["pre"])
-                nxt = trial
-        except Exception as e:                       # state that cannot even be read back
-            rec["unreadable"] = f"{type(e).__name__}: {e}"[:200]
-            steps_out.append(rec)
-            break
-        # S5: operands untouched (object operands are built from the case; compare a second build)
-        if step["name"] in ("adjoin", "append", "insert", "incorp") and not step.get("raw"):
-            o1, _ = rn.operand_obj(live, k, step["operand"])
-            before = observe(cname, o1)
-            probe = copy.deepcopy(live)
-            args = (py_obj(step["obj"]), o1) if step["name"] in ("insert", "incorp") else (o1,)
-            sfx = "" if step.get("generic") else "_" + k
-            akw = {"axis": step["axis"]} if step.get("generic") else {}
-            try:
-                getattr(probe, step["name"] + sfx)(*args, **akw)
-            except Exception:
-                pass
-            rec["operand_unchanged"] = _same(observe(cname, o1), before)
-        if step["name"] == "concat":
-            objs = [rn.operand_obj(live, k, o)[0] for o in step["others"]]
-            before = [observe(cname, o) for o in objs]
-            probe = copy.deepcopy(live)
-            sfx = "" if step.get("generic") else "_" + k
-            akw = {"axis": step["axis"]} if step.get("generic") else {}
-            try:
-                getattr(rn.cls, "concat" + sfx)([probe] + objs, **akw)
-            except Exception:
-                pass
-            rec["operand_unchanged"] = (_same([observe(cname, o) for o in objs], before)
-                                        and _same(observe(cname, probe), rec["pre"]))
+        # ---- the counterpart forms, each on a private deep copy of the receiver (run first: the main call below
+        #      works on the real object)
         # S6: mutating == pure counterpart
         if step["name"] in PURE_OF:
             alt = dict(step, name=PURE_OF[step["name"]])
             try:
-                kk, vv = rn.call(copy.deepcopy(live), alt)
+                kk, vv, _ = rn.call(copy.deepcopy(live), alt)
                 rec["pure_counterpart"] = observe(cname, vv)
             except Exception as e:
                 rec["pure_counterpart"] = {"error": canon.exc_tag(e), "text": f"{type(e).__name__}: {e}"[:160]}
@@ -428,7 +635,7 @@ def run_history(case):
                 alt["generic"] = True
                 alt["axis"] = step["alt_axis"]
             try:
-                kk, vv = rn.call((probe2 := copy.deepcopy(live)), alt)
+                kk, vv, _ = rn.call((probe2 := copy.deepcopy(live)), alt)
                 if kk == "obj":
                     rec["other_form"] = observe(cname, vv)
                 elif kk == "self":
@@ -439,8 +646,49 @@ def run_history(case):
                 rec["other_form"] = {"error": "unsupported", "text": "RecursionError"}
             except Exception as e:
                 rec["other_form"] = {"error": canon.exc_tag(e), "text": f"{type(e).__name__}: {e}"[:160]}
+        # ---- the step itself, on the real object (no copy: whatever it shares with other live objects stays shared)
+        def keep(objs, si=si):
+            for o in objs:
+                heap.extra.append([o, fingerprint(cname, o), observe(cname, o), si])
+
+        try:
+            kind, val, opds = rn.call(live, step, keep)
+            rec["error"] = None
+        except Exception as e:                      # recorded; the judge decides what it means
+            kind, val = "exc", None
+            _exc_rec(rec, e)
+        try:
+            if kind == "exc":
+                # a failed mutating call may have reset cached metadata before it raised: go on from what is there
+                mutating = step["name"] in MUTATING
+                rec["changed"] = heap.changed(skip=(rid,) if mutating else (), si=si)
+                if mutating:
+                    heap.refresh(rid)
+                    rec["receiver_after_error"] = heap.snaps[rid]
+                steps_out.append(rec)
+                continue
+            if kind == "obj":
+                new = heap.add(val)
+                rec["post"] = heap.snaps[new]
+                rec["new"] = new
+                rec["changed"] = heap.changed(skip=(new,), si=si)
+            elif kind == "self":
+                heap.refresh(rid)
+                rec["post"] = heap.snaps[rid]
+                rec["changed"] = heap.changed(skip=(rid,), si=si)
+            else:
+                rec["value"] = val
+                rec["changed"] = heap.changed(si=si)
+        except Exception as e:                       # state that cannot even be read back
+            rec["unreadable"] = f"{type(e).__name__}: {e}"[:200]
+            steps_out.append(rec)
+            break
+        rec["shares"] = heap.shares()
+        if kind != "self":
+            rec["self_unchanged"] = not any(c["id"] == rid for c in rec["changed"])
+        if step["name"] in ("adjoin", "append", "insert", "incorp", "concat") and step_form(step) != "raw":
+            rec["operand_unchanged"] = not any(c["role"] == "operand" for c in rec["changed"])
         steps_out.append(rec)
-        live = nxt
     return {"steps": steps_out}
 
 
@@ -453,11 +701,12 @@ class Gen:
         self.cname = cname
         self.d = CLASSES[cname]
         self.dup = dup_labels
-        self.next_name = {k: 0 for k in KINDS}
-        self.has_none = {k: False for k in KINDS}     # a None-padded name column makes default-key sorting raise
+        # name codes start just below a power of ten now and then: names of different lengths in one array
+        self.next_name = {k: rng.choice([0, 0, 6, 8, 95, 98, 995]) for k in KINDS}
         self.next_cell = rng.randrange(0, 200)
         self.tiny = tiny
         self.allow_pad = True
+        self.ext_ins = CLASSES[cname]["ndim"] <= 3      # mask / unsorted positions of numpy.insert (Model/LabelMatX)
         r = rng.random()
         # presence pattern of the optional label columns (fixed for the whole history)
         self.present = {}
@@ -495,7 +744,7 @@ class Gen:
         if name in ("taxa_grp", "vrnt_chrgrp", "vrnt_hapgrp"):
             return [rng.randrange(1, 4) for _ in range(q)]
         if name == "vrnt_phypos":
-            return [rng.randrange(0, 6) for _ in range(q)]          # ties on purpose (stability)
+            return [rng.randrange(0, 6 if q < 100 else 40) for _ in range(q)]          # ties on purpose (stability)
         if name == "vrnt_mask":
             return [rng.randrange(0, 2) for _ in range(q)]
         return [rng.randrange(0, 40) for _ in range(q)]
@@ -508,7 +757,13 @@ class Gen:
         d = self.d
         hi = 3 if self.tiny else 5
         ln = {k: rng.choice([1, 2, 3, 3, 4, hi]) for k in KINDS}
-        shape = [1, 1, 1]
+        if len(d["taxa"]) > 2:
+            ln["taxa"] = rng.choice([2, 3, 3]) if len(d["taxa"]) == 3 else rng.choice([2, 2, 3])
+            ln["trait"] = rng.choice([1, 2])
+        for k, v in getattr(self, "big", {}).items():
+            ln = {kk: rng.choice([1, 2]) for kk in KINDS}
+            ln[k] = v
+        shape = [1] * max(3, d["ndim"])
         if d["ndim"] == 3 and 0 not in d["taxa"] + d["vrnt"] + d["trait"]:
             shape[0] = rng.choice([1, 2, 2, 3])       # phase axis
         for k in KINDS:
@@ -518,19 +773,21 @@ class Gen:
         st = {"mat": self.cells(shape)}
         for k in KINDS:
             st[k] = {"cols": self.bundle_cols(k, ln[k]) if d[k] else [None] * len(COLS[k]), "grp": None}
-        self.len = {k: (shape[d[k][0]] if d[k] else 0) for k in KINDS}
+        # one entry per live receiver object (the initial one; every result of a non-mutating operation)
+        self.objs = [{"len": {k: (shape[d[k][0]] if d[k] else 0) for k in KINDS},
+                      "has_none": {k: False for k in KINDS}}]
         return st
 
-    def block_shape(self, k, q, first_axis_only=False):
+    def block_shape(self, meta, k, q, first_axis_only=False):
         s = list(self.shape)
         for kk in KINDS:
             for a in self.d[kk]:
-                s[a] = self.len[kk]
+                s[a] = meta["len"][kk]
         for a in (self.d[k][:1] if first_axis_only else self.d[k]):
             s[a] = q
         return s
 
-    def operand(self, k, q, rows=False):
+    def operand(self, meta, k, q, rows=False):
         """operand block with q new entries; `rows`: a q x n block of rows (what the single-axis insert / incorp /
         concat of the square classes take), otherwise the q x q diagonal block of adjoin / append"""
         cols = self.bundle_cols(k, q)
@@ -538,8 +795,8 @@ class Gen:
             # names not supplied although the receiver has names: the source pads them with None
             if cols[ci] is not None and self.allow_pad and self.rng.random() < 0.2:
                 cols[ci] = None
-                self.has_none[k] = True
-        return {"mat": self.cells(self.block_shape(k, q, first_axis_only=rows)), "cols": cols}
+                meta["has_none"][k] = True
+        return {"mat": self.cells(self.block_shape(meta, k, q, first_axis_only=rows)), "cols": cols}
 
     def rand_index(self, n):
         i = self.rng.randrange(n)
@@ -579,16 +836,53 @@ class Gen:
         if r < 0.75 or q == 0:
             p = rng.randrange(n + 1)
             return {"list": [p - n if (rng.random() < 0.25 and p < n) else p]}
-        if r < 0.9:
+        if r < 0.84:
             return {"list": sorted(rng.randrange(n + 1) for _ in range(q))}
+        if r < 0.9 and self.ext_ins:
+            # positions in any order (numpy sorts them stably and moves the values along), negative entries included
+            ps = [rng.randrange(n + 1) for _ in range(q)]
+            return {"list": [p - n if (rng.random() < 0.2 and p < n) else p for p in ps]}
+        if r < 0.95 and self.ext_ins:
+            # boolean ndarray of length n or n + 1 with exactly q entries set (q = 1: the block goes before that one)
+            ln = n + 1 if rng.random() < 0.4 else n
+            on = set(rng.sample(range(ln), min(q, ln)))
+            return {"mask": [i in on for i in range(ln)]}
         a = rng.randrange(n + 1)
         return {"slice": [a, min(n, a + q), 1]} if a + q <= n else {"list": [a]}
 
-    def step(self):
+    def operand_form(self, k, st):
+        """how the operand is handed over (see `step_form`)"""
+        rng = self.rng
+        r = rng.random()
+        if r < 0.3:
+            st["form"] = "raw"
+        elif r < 0.65:
+            st["form"] = "obj"
+        else:
+            st["form"] = "obj_kw"
+            cols = st["operand"]["cols"]
+            ov = [None if c is None else rng.choice(["other", "other", "none", None]) for c in cols]
+            if all(x is None for x in ov):
+                present = [ci for ci, c in enumerate(cols) if c is not None]
+                if present:
+                    ov[rng.choice(present)] = "other"
+                else:
+                    st["form"] = "obj"
+            if st["form"] == "obj_kw":
+                st["override"] = ov
+        st["raw"] = st["form"] == "raw"
+
+    def step(self, only_kind=None, names=None, force_rid=None):
         rng = self.rng
         d = self.d
-        k = rng.choice(op_kinds_of(self.cname))
-        n = self.len[k]
+        # the receiver: mostly the newest object, sometimes an older one that is still alive
+        rid = len(self.objs) - 1 if rng.random() < 0.7 else rng.randrange(len(self.objs))
+        if force_rid is not None:
+            rid = force_rid
+        meta = self.objs[rid]
+        k = only_kind or rng.choice(op_kinds_of(self.cname))
+        only_names = names
+        n = meta["len"][k]
         names = ["select", "delete", "remove", "reorder", "sort", "group", "ungroup", "is_grouped", "lexsort",
                  "adjoin", "append", "insert", "incorp", "concat", "group", "sort", "reorder"]
         if k == "trait":
@@ -597,26 +891,36 @@ class Gen:
         if is_square(self.cname) and k == "taxa":
             # the single-axis edits of the square classes are a known defect (D14): keep them rare
             names = [x for x in names if x not in ("insert", "incorp", "concat")] * 3 + ["insert", "incorp", "concat"]
+        if len(d["taxa"]) > 2 and k == "taxa" and n >= 4:
+            names = [x for x in names if x not in ("adjoin", "append")]      # keep n ** r small
+        if only_names:
+            names = [x for x in only_names if x in names]
         name = rng.choice(names)
-        if self.has_none[k] and k == "taxa" and name == "group":
+        if meta["has_none"][k] and k == "taxa" and name == "group":
             name = "sort"                     # group_taxa sorts on the names: None vs str cannot be compared
         axis = d[k][rng.randrange(len(d[k]))]
         ax = axis - d["ndim"] if rng.random() < 0.4 else axis
-        st = {"name": name, "kind": k, "generic": rng.random() < 0.4, "axis": ax, "alt_axis": ax}
+        st = {"name": name, "kind": k, "generic": rng.random() < 0.4, "axis": ax, "alt_axis": ax, "on": rid}
+        new_len = None                        # length of axis k of the object the step leaves / returns
         if name == "select":
             cnt = rng.randint(1, n + 1)
+            if len(d["taxa"]) > 2 and k == "taxa":
+                cnt = min(cnt, 3)
+            if n > 100:
+                cnt = rng.randint(n // 2, n)
             st["indices"] = [self.rand_index(n) for _ in range(cnt)]
-            st["as_array"] = rng.random() < 0.5
-            self.len[k] = cnt
+            st["as_array"] = rng.choice([False, True, True, "int32", "tuple"])
+            new_len = cnt
         elif name in ("delete", "remove"):
-            st["obj"], self.len[k] = self.del_obj(n)
+            st["obj"], new_len = self.del_obj(n)
         elif name == "reorder":
             p = list(range(n))
             rng.shuffle(p)
             st["indices"] = [i - n if rng.random() < 0.2 else i for i in p]
+            st["as_array"] = rng.choice([True, True, False, "int32"])
         elif name in ("sort", "lexsort"):
             r = rng.random()
-            if r < 0.6 and not (self.has_none[k] and k == "taxa"):
+            if r < 0.6 and not (meta["has_none"][k] and k == "taxa"):
                 st["keys"] = None
             else:
                 nk = rng.randint(1, 3)
@@ -629,49 +933,121 @@ class Gen:
             st["expect_error"] = not any(self.present[k][c] for c in {"taxa": [0, 1], "vrnt": [1, 0]}[k])
         elif name in ("adjoin", "append", "insert", "incorp"):
             q = rng.choice([1, 1, 2, 2, 3])
+            if len(d["taxa"]) > 2 and k == "taxa":
+                q = 1
             rows = name in ("insert", "incorp")
-            st["operand"] = self.operand(k, q, rows)
-            st["raw"] = rng.random() < 0.35
+            none_before = meta["has_none"][k]
+            st["operand"] = self.operand(meta, k, q, rows)
             if name in ("insert", "incorp"):
                 st["obj"] = self.ins_obj(n, q, d[k][0] == 0)
                 if "list" in st["obj"] and len(st["obj"]["list"]) > 1:
-                    st["operand"] = self.operand(k, len(st["obj"]["list"]), rows)
+                    st["operand"] = self.operand(meta, k, len(st["obj"]["list"]), rows)
                     q = len(st["obj"]["list"])
                 if "slice" in st["obj"]:
                     q2 = len(range(*slice(*st["obj"]["slice"]).indices(n)))
                     if q2 != q:
-                        st["operand"] = self.operand(k, q2, rows)
+                        st["operand"] = self.operand(meta, k, q2, rows)
                         q = q2
-            self.len[k] = n + q
+                if "mask" in st["obj"]:
+                    q2 = sum(st["obj"]["mask"])
+                    if q2 != q and q2 > 1:
+                        st["operand"] = self.operand(meta, k, q2, rows)
+                        q = q2
+            self.operand_form(k, st)
+            new_len = n + q
+            if name in ("adjoin", "insert"):
+                # the None padding lands in the returned object, not in the receiver
+                padded = meta["has_none"][k]
+                meta["has_none"][k] = none_before
+                st["_padded"] = padded
         elif name == "concat":
             qs = [rng.choice([1, 2]) for _ in range(rng.randint(1, 2))]
-            st["others"] = [self.operand(k, q, True) for q in qs]
-            self.len[k] = n + sum(qs)
+            none_before = meta["has_none"][k]
+            st["others"] = [self.operand(meta, k, q, True) for q in qs]
+            st["_padded"] = meta["has_none"][k]
+            meta["has_none"][k] = none_before
+            new_len = n + sum(qs)
+        if name in ("select", "delete", "adjoin", "insert", "concat"):
+            child = {"len": dict(meta["len"]), "has_none": dict(meta["has_none"])}
+            if new_len is not None:
+                child["len"][k] = new_len
+            if st.pop("_padded", False):
+                child["has_none"][k] = True
+            self.objs.append(child)
+        else:
+            st.pop("_padded", None)
+            if new_len is not None:
+                meta["len"][k] = new_len
         return st
+
+
+CLASS_MIX = (["DensePhasedGenotypeMatrix"] * 5 + ["DenseGenotypeMatrix"] * 4 +
+             ["DenseTaxaVariantMatrix", "DensePhasedTaxaVariantMatrix", "DenseTaxaTraitMatrix",
+              "DenseTaxaTraitMatrix", "DenseSquareTaxaMatrix", "DenseMolecularCoancestryMatrix",
+              "DenseMolecularCoancestryMatrix", "DenseSquareTaxaTraitMatrix", "DenseTaxaMatrix",
+              "DenseBreedingValueMatrix", "DenseBreedingValueMatrix",
+              "DenseVariantMatrix", "DenseTraitMatrix",
+              "DenseVanRadenCoancestryMatrix", "DenseTwoWayDHAdditiveGeneticVarianceMatrix",
+              "DenseGenomicEstimatedBreedingValueMatrix",
+              "DenseSquareTaxaTraitMatrix@4", "DenseThreeWayDHAdditiveGeneticVarianceMatrix",
+              "DenseThreeWayDHAdditiveGeneticVarianceMatrix", "DenseFourWayDHAdditiveGenicVarianceMatrix"])
+
+
+def gen_big(rng):
+    """an axis longer than 127 / 256 entries (index dtypes, int8 counters): few steps, one long axis"""
+    cname = rng.choice(["DenseTaxaVariantMatrix", "DenseGenotypeMatrix", "DenseTaxaTraitMatrix", "DenseTaxaMatrix",
+                        "DenseVariantMatrix", "DensePhasedGenotypeMatrix"])
+    g = Gen(rng, cname, dup_labels=False)
+    kinds = op_kinds_of(cname)
+    big = rng.choice(kinds)
+    g.big = {big: rng.choice([130, 150, 200, 260, 300])}
+    init = g.init_state()
+    steps = []
+    for _ in range(rng.randint(1, 4)):
+        for _try in range(20):
+            s = g.step(only_kind=big, names=["select", "delete", "remove", "reorder", "sort", "group", "lexsort",
+                                             "reorder", "sort"])
+            break
+        steps.append(s)
+    return {"kind": "hist", "cls": cname, "init": init, "steps": steps, "big": True}
 
 
 def gen_history(rng, cname=None, nsteps=None, dup=None, tiny=False):
     if cname is None:
-        cname = rng.choice(["DensePhasedGenotypeMatrix"] * 5 + ["DenseGenotypeMatrix"] * 4 +
-                           ["DenseTaxaVariantMatrix", "DensePhasedTaxaVariantMatrix", "DenseTaxaTraitMatrix",
-                            "DenseTaxaTraitMatrix", "DenseSquareTaxaMatrix", "DenseMolecularCoancestryMatrix",
-                            "DenseMolecularCoancestryMatrix", "DenseSquareTaxaTraitMatrix", "DenseTaxaMatrix",
-                            "DenseBreedingValueMatrix", "DenseBreedingValueMatrix",
-                            "DenseVariantMatrix", "DenseTraitMatrix"])
+        cname = rng.choice(CLASS_MIX)
     g = Gen(rng, cname, dup_labels=(rng.random() < 0.3 if dup is None else dup), tiny=tiny)
+    if len(CLASSES[cname]["taxa"]) > 2 and rng.random() < 0.6:
+        # the square classes with a trait axis drop the trait names in every non-mutating taxa operation (D27):
+        # without trait names a history can go on past such a step
+        g.present["trait"] = [False]
     init = g.init_state()
     n = nsteps if nsteps is not None else rng.randint(1, 10)
+    if len(CLASSES[cname]["taxa"]) > 2:
+        n = min(n, 6)
     steps = []
+    r_layout = rng.random()
+    if r_layout < 0.24 and not CLASSES[cname].get("pure_drops_other"):
+        # Fortran-ordered / non-contiguous inputs only matter while an operation still reads the arrays the object was
+        # built from: begin with non-mutating operations on the initial object
+        for _ in range(rng.randint(1, 2)):
+            steps.append(g.step(names=["select", "delete", "select"], force_rid=0))
     for _ in range(n):
         s = g.step()
         steps.append(s)
-        if _trigger(cname, s) is not None:
+        if _trigger(cname, s, present=g.present) is not None:
             break            # the next step would start from a state the defect has already corrupted
-    return {"kind": "hist", "cls": cname, "init": init, "steps": steps}
+    case = {"kind": "hist", "cls": cname, "init": init, "steps": steps}
+    if r_layout < 0.12:
+        case["layout"] = "F"
+    elif r_layout < 0.24:
+        case["layout"] = "strided"
+    return case
 
 
-def _trigger(cname, step, pre=None):
+def _trigger(cname, step, pre=None, present=None):
     """attributes of a step that can set off one of the known defects of the tree (D14, D27)"""
+    if pre is None and present is not None:
+        pre = {kk: {"cols": [0 if p else None for p in present[kk]]} for kk in KINDS}
     d = CLASSES[cname]
     name, k = step["name"], step["kind"]
     if is_square(cname) and k == "taxa" and name in ("insert", "incorp", "concat"):
@@ -714,6 +1090,34 @@ def run_gt(case):
     else:
         ref = pre
     rec["ref"] = ref
+    # the protocol hands label arrays (and, without a mask, the data) of the input to the output: in-place
+    # operations on either object afterwards must not reach the other one
+    objs = {"in": (P, live), "out": (outc, out)}
+    snaps = {"in": pre, "out": rec["post"]}
+    rec["alias"] = []
+    for st in case.get("after", []):
+        tgt = st["target"]
+        other = "out" if tgt == "in" else "in"
+        cn, o = objs[tgt]
+        step = dict(st)
+        if step["name"] == "reorder":
+            n = numpy.asarray(o.mat).shape[CLASSES[cn][step["kind"]][0]]
+            step["indices"] = list(range(n))[::-1]
+        try:
+            Runner(cn).call(o, step)
+        except Exception as e:
+            rec["alias"].append({"step": st, "error": f"{type(e).__name__}: {e}"[:160]})
+            continue
+        ocn, oo = objs[other]
+        try:
+            now = observe(ocn, oo)
+        except Exception as e:
+            now = {"unreadable": f"{type(e).__name__}: {e}"[:160]}
+        if now != snaps[other]:
+            rec["alias"].append({"step": st, "who": other, "cls": ocn, "before": snaps[other], "after": now})
+            if "unreadable" not in now:
+                snaps[other] = now
+        snaps[tgt] = observe(cn, o)
     return rec
 
 
@@ -731,8 +1135,18 @@ def gen_gt(rng):
         prep.append({"name": "group", "kind": "vrnt", "generic": False, "axis": 2, "alt_axis": 2})
     if rng.random() < 0.5 and (g.present["taxa"][0] or g.present["taxa"][1]):
         prep.append({"name": "group", "kind": "taxa", "generic": False, "axis": 1, "alt_axis": 1})
+    after = []
+    for _ in range(rng.choice([0, 1, 2, 2])):
+        tgt = rng.choice(["in", "out"])
+        kind = rng.choice(["taxa", "taxa", "vrnt"])
+        name = rng.choice(["reorder", "sort", "group", "reorder"])
+        has = {"taxa": g.present["taxa"][0] or g.present["taxa"][1], "vrnt": g.present["vrnt"][0] or True}[kind]
+        if name in ("sort", "group") and not has:
+            name = "reorder"
+        after.append({"target": tgt, "name": name, "kind": kind, "generic": False, "axis": 0, "alt_axis": 0,
+                      "keys": None})
     return {"kind": "gt", "proto": rng.choice(["masked_phased", "masked_phased", "masked_unphased", "unphased"]),
-            "invert": rng.random() < 0.4, "init": init, "prep": prep}
+            "invert": rng.random() < 0.4, "init": init, "prep": prep, "after": after}
 
 # ------------------------------------------------------------------------------------------------
 def np_case(rng):
@@ -753,6 +1167,7 @@ def np_case(rng):
     if r < 0.8:
         q = rng.randint(1, 3)
         g = Gen(rng, "DenseTaxaMatrix")
+        g.ext_ins = False              # the mask / unsorted forms have their own conformance kind (`insertx`)
         o = g.ins_obj(n, q, True)
         if "list" in o and len(o["list"]) > 1:
             q = len(o["list"])
@@ -760,6 +1175,18 @@ def np_case(rng):
             q = len(range(*slice(*o["slice"]).indices(n)))
         v = [rng.randrange(100, 200) for _ in range(q)]
         return {"kind": "np", "fn": "insert", "l": l, "v": v, "obj": o}
+    if r < 0.9:
+        q = rng.randint(2, 4)
+        if rng.random() < 0.5:
+            o = {"list": [rng.randrange(-n, n + 1) for _ in range(q)]}
+        else:
+            ln = n + 1 if rng.random() < 0.4 else n
+            on = set(rng.sample(range(ln), min(q, ln)))
+            o = {"mask": [i in on for i in range(ln)]}
+            q = len(on)
+        if rng.random() < 0.2:
+            q = 1
+        return {"kind": "np", "fn": "insertx", "l": l, "v": [rng.randrange(100, 200) for _ in range(q)], "obj": o}
     axis = rng.randrange(3)
     shp = [rng.randint(1, 3) for _ in range(3)]
     vshp = list(shp)
@@ -781,6 +1208,13 @@ def np_impl(case):
         if fn == "insert":
             return {"l": [int(x) for x in numpy.insert(numpy.array(case["l"], dtype="int64"), py_obj(case["obj"]),
                                                       numpy.array(case["v"], dtype="int64"))]}
+        if fn == "insertx":
+            a = numpy.array(case["l"], dtype="int64")
+            v = numpy.array(case["v"], dtype="int64")
+            # data (n x 1 x 1 block along axis 0) and the label array go through numpy.insert separately, as in pybrops
+            d = numpy.insert(a.reshape(-1, 1), py_obj(case["obj"]), v.reshape(-1, 1), axis=0)
+            lab = numpy.insert(a, py_obj(case["obj"]), v, axis=0)
+            return {"l": {"data": [int(x) for x in d[:, 0]], "labels": [int(x) for x in lab]}}
         if fn == "insert3":
             r = numpy.insert(numpy.array(case["m"], dtype="int64"), py_obj(case["obj"]),
                              numpy.array(case["v"], dtype="int64"), axis=case["axis"])
@@ -797,40 +1231,58 @@ class C03(Prop):
     N_QUICK = 1200
     N_THOROUGH = 6000
     CORRESPONDENCE = "functional"
-    RULE = ("random histories (1-10 steps) of select / delete / insert / adjoin / concat / append / remove / incorp / "
-            "reorder / lexsort / sort / group / ungroup / is_grouped on twelve concrete classes (phased and unphased "
-            "genotype, taxa-variant, taxa-trait, breeding-value (raw values), square-taxa, coancestry, square-taxa-trait matrices and the three "
-            "single-axis base classes) plus the three genotyping protocols applied to (un)grouped phased matrices with "
-            "and without a variant mask, axis-specific and axis-generic forms (negative axes included), index forms "
-            "int / list / ndarray / slice / boolean mask with negative entries, operands passed as objects or as raw "
-            "arrays + label keywords, unique cell codes, unique or deliberately duplicated names, small group / "
-            "position ranges (ties), random presence pattern of the optional label columns, shapes down to 1.  "
-            "Non-trivial = a history with >= 2 executed steps of which at least one permutes or edits an axis of "
-            "length >= 2")
-    TRUSTED = ["numpy.take/delete/insert/append/concatenate/lexsort/unique as modelled in Model/LabelMat.lean "
-               "(index normalisers, slices and the scalar-position moveaxis/broadcast rule of numpy.insert are "
-               "differentially tested against numpy on every run: kind `np`)",
-               "copy.deepcopy returns an object graph that shares no mutable state with its argument (the harness "
-               "uses it to run the counterpart forms on an identical receiver)",
+    RULE = ("random histories (1-10 steps) over a HEAP of live objects — the initial object, every result of a "
+            "non-mutating operation and every operand object stay alive; each step picks its receiver among them "
+            "(70 % the newest) and after every step ALL live objects are read back and re-verified — of select / delete / "
+            "insert / adjoin / concat / append / remove / incorp / reorder / lexsort / sort / group / ungroup / is_grouped "
+            "on 21 concrete classes: phased and unphased genotype, taxa-variant, taxa-trait, breeding-value and genomic "
+            "EBV (raw values), square-taxa, two coancestry subclasses, square-taxa-trait and two-way variance (2 taxa "
+            "axes), DenseSquareTaxaTraitMatrix built from a 4-D array, three-way and four-way variance matrices (3 / 4 "
+            "square taxa axes: N-D model), the three single-axis base classes; plus the three genotyping protocols on "
+            "(un)grouped phased matrices with and without a variant mask, followed by in-place operations on the output "
+            "or the input (aliasing).  Axis-specific and axis-generic forms (negative axes included); index forms int / "
+            "list / tuple / int64 / int32 ndarray / slice / boolean mask with negative entries, numpy.insert positions "
+            "also as boolean ndarray and as UNSORTED list; operands passed as raw arrays + label keywords, as matrix "
+            "objects carrying the labels, or as matrix objects carrying OTHER labels (or none) that explicit label keywords "
+            "must override; C / Fortran-ordered / non-contiguous (strided) input arrays; unique cell codes, unique or "
+            "deliberately duplicated names, small group / position ranges (ties), random presence pattern of the optional "
+            "label columns, shapes down to 1, a few histories with one axis of 130-300 entries.  Non-trivial = a history "
+            "with >= 2 executed steps of which at least one permutes or edits an axis of length >= 2")
+    TRUSTED = ["numpy.take/delete/insert/append/concatenate/lexsort/unique as modelled in Model/LabelMat.lean, "
+               "LabelMatN.lean, LabelMatX.lean (index normalisers, slices, the scalar-position moveaxis/broadcast rule, the "
+               "mask and unsorted-list forms of numpy.insert are differentially tested against numpy on every run: kind `np`)",
+               "copy.deepcopy returns an object graph that shares no mutable state with its argument (used only to run "
+               "the counterpart forms — mutating vs non-mutating, generic vs specific — on an identical receiver; the "
+               "history itself runs on the real objects, never on copies)",
                "Std.HashSet membership = list membership (the driver evaluates the attachment Spec through a hash set)",
                "the order-preserving injective rendering of label codes into names / floats / booleans "
                "(harness render_col / decode_col)",
-               "numpy int8 summation over the phase axis as the reference for the unphased genotyping outputs"]
+               "numpy int8 summation over the phase axis as the reference for the unphased genotyping outputs",
+               "`x is y` / numpy.shares_memory as the observation of which ndarray objects two matrix objects share "
+               "(compared with the address tables of the heap model, Model/LabelHeap.lean: implementation sharing must be "
+               "a subset of model sharing)"]
     ASSUMPTIONS = ["operands share the receiver's presence pattern of optional label columns, except that names (taxa, "
                    "vrnt_name) may be omitted for a receiver that has them: the `None` padding is modelled "
                    "(`padOperand`); after such a padding the generator does not sort taxa on their names "
                    "(None and str do not compare)",
                    "no axis is emptied completely (shapes go down to a single row / column, as in the quantifier)",
-                   "numpy.insert with unsorted index lists or boolean masks is not modelled",
-                   "DenseBreedingValueMatrix is driven through its raw values (unscale(), rounded to the integer codes) "
-                   "and only with the taxa operations that keep raw values (in-place append / incorp and concat are C15 "
-                   "findings D23 / D24); DenseCoancestryMatrix is abstract and is exercised through "
-                   "DenseMolecularCoancestryMatrix",
-                   "phase-axis operations are outside the property (the phase axis carries no labels)",
+                   "numpy.insert with a boolean mask is driven with ndarray masks of length n or n + 1 (a Python list of "
+                   "booleans is rejected by numpy itself); numpy.take with boolean `indices` (cast to 0 / 1) is not "
+                   "treated as a valid selection",
+                   "DenseBreedingValueMatrix / DenseGenomicEstimatedBreedingValueMatrix are driven through their raw "
+                   "values (unscale(), rounded to the integer codes) and only with the taxa operations that keep raw "
+                   "values (in-place append / incorp and concat are C15 findings D23 / D24); DenseCoancestryMatrix is "
+                   "abstract and is exercised through DenseMolecularCoancestryMatrix and DenseVanRadenCoancestryMatrix",
+                   "phase-axis operations (*_phase) are outside the property (the phase axis carries no labels)",
                    "single-axis insert / incorp / concat of the square classes (known defect D14) are driven with "
-                   "row-shaped operands; the model is exact for those only",
-                   "non-mutation of operands is a statement about Python object identity and is checked on the "
-                   "implementation only (the Lean model is purely functional)"]
+                   "row-shaped operands; the model is exact for those only (the repaired block-shaped form of "
+                   "patch_D14.diff is validated by tools outside the check)",
+                   "an object that a step did not operate on and whose public state nevertheless changed is judged by the "
+                   "attachment / consistency / partition Spec against its own earlier state (spec) and by exact equality "
+                   "(corr); the receiver and the operand objects of a non-mutating operation by exact equality (spec), as "
+                   "the property states",
+                   "progeny covariance matrices (square taxa AND square trait axes, DenseSquareTaxaSquareTraitMatrix) are "
+                   "not exercised"]
 
 
     # ------------------------------------------------------------------ cases
@@ -975,6 +1427,129 @@ class C03(Prop):
                        S(name="group", kind="vrnt", axis=2, alt_axis=2),
                        S(name="ungroup", kind="vrnt", axis=2, alt_axis=2),
                        S(name="is_grouped", kind="vrnt", axis=2, alt_axis=2)]},
+            # ---- several live objects: the result of a non-mutating operation along one axis shares the label
+            #      arrays of the OTHER axis with its operand; sorting / grouping / reordering either of them in
+            #      place must not reach the other one (every object stays alive and is re-verified after each step)
+            {"kind": "hist", "cls": "DenseTaxaVariantMatrix",
+             "init": {"mat": [[[0], [1], [2]], [[3], [4], [5]], [[6], [7], [8]], [[9], [10], [11]]],
+                      "taxa": {"cols": full_t, "grp": None},
+                      "vrnt": {"cols": v9([2, 1, 2], [7, 5, 3], [0, 1, 2]), "grp": None}, "trait": empty_bundle("trait")},
+             "steps": [S(name="select", kind="vrnt", indices=[2, 0], axis=1, alt_axis=-1, on=0),
+                       S(name="sort", kind="taxa", keys=[[3, 2, 1, 0]], on=1),
+                       S(name="group", kind="taxa", on=0),
+                       S(name="delete", kind="taxa", obj={"int": 0}, on=0),
+                       S(name="reorder", kind="vrnt", indices=[2, 1, 0], axis=1, alt_axis=1, on=0),
+                       S(name="group", kind="vrnt", axis=1, alt_axis=1, on=2),
+                       S(name="is_grouped", kind="taxa", on=1)]},
+            {"kind": "hist", "cls": P, "init": pinit,
+             "steps": [S(name="delete", kind="vrnt", obj={"int": 1}, axis=2, alt_axis=-1, on=0),
+                       S(name="reorder", kind="taxa", indices=[3, 2, 1, 0], axis=1, alt_axis=1, on=1),
+                       S(name="adjoin", kind="vrnt", axis=2, alt_axis=2, on=0, form="obj",
+                         operand={"mat": [[[90], [91], [92], [93]], [[95], [96], [97], [98]]],
+                                  "cols": v9([1], [1], [77])}),
+                       S(name="group", kind="taxa", axis=1, alt_axis=-2, on=2),
+                       S(name="sort", kind="taxa", keys=[[1, 0, 3, 2]], axis=1, alt_axis=1, on=0)]},
+            {"kind": "hist", "cls": "DenseTaxaTraitMatrix",
+             "init": {"mat": [[[0], [1]], [[2], [3]], [[4], [5]]], "taxa": {"cols": [[2, 0, 1], [2, 1, 2]], "grp": None},
+                      "vrnt": empty_bundle("vrnt"), "trait": {"cols": [[5, 3]], "grp": None}},
+             "steps": [S(name="adjoin", kind="trait", axis=1, alt_axis=-1, on=0, form="raw",
+                         operand={"mat": [[[10]], [[11]], [[12]]], "cols": [[9]]}),
+                       S(name="group", kind="taxa", on=1),
+                       S(name="select", kind="trait", indices=[1, 0], axis=1, alt_axis=1, on=0),
+                       S(name="sort", kind="taxa", keys=None, on=0),
+                       S(name="sort", kind="trait", keys=None, axis=1, alt_axis=1, on=2)]},
+            # ---- operand passed as a matrix object that has its own labels WHILE the call also names labels: the
+            #      keyword wins, in the mutating form exactly as in the non-mutating one
+            {"kind": "hist", "cls": "DenseTaxaTraitMatrix",
+             "init": {"mat": [[[0], [1]], [[2], [3]]], "taxa": {"cols": [[0, 1], [1, 1]], "grp": None},
+                      "vrnt": empty_bundle("vrnt"), "trait": {"cols": [[5, 3]], "grp": None}},
+             "steps": [S(name="incorp", kind="trait", obj={"int": 1}, axis=1, alt_axis=-1, form="obj_kw", override=["other"],
+                         operand={"mat": [[[10], [11]], [[12], [13]]], "cols": [[8, 9]]}),
+                       S(name="insert", kind="trait", obj={"list": [0]}, axis=1, alt_axis=1, form="obj_kw", override=["other"],
+                         operand={"mat": [[[20]], [[21]]], "cols": [[7]]}),
+                       S(name="append", kind="taxa", form="obj_kw", override=["other", None],
+                         operand={"mat": [[[30], [31], [32], [33], [34]]], "cols": [[6], [2]]}),
+                       S(name="adjoin", kind="taxa", form="obj_kw", override=["none", "other"],
+                         operand={"mat": [[[40], [41], [42], [43], [44]]], "cols": [[7], [3]]})]},
+            {"kind": "hist", "cls": G, "init": ginit,
+             "steps": [S(name="incorp", kind="vrnt", obj={"list": [1]}, axis=1, alt_axis=-1, form="obj_kw",
+                         override=["other", None, "other", None, None, None, None, None, None],
+                         operand={"mat": [[[50], [51]], [[60], [61]]], "cols": v9([1, 1], [7, 8], [50, 51])}),
+                       S(name="append", kind="vrnt", axis=1, alt_axis=1, generic=True, form="obj_kw",
+                         override=[None, "other", "none", None, None, None, None, None, None],
+                         operand={"mat": [[[70]], [[71]]], "cols": v9([2], [9], [52])})]},
+            # ---- more than two square taxa axes (three-way / four-way variance matrices): every taxa axis follows
+            #      the one taxa bundle
+            {"kind": "hist", "cls": "DenseThreeWayDHAdditiveGeneticVarianceMatrix",
+             "init": {"mat": [[[[100 * a + 10 * b + c] for c in range(3)] for b in range(3)] for a in range(3)],
+                      "taxa": {"cols": [[2, 0, 1], [2, 1, 2]], "grp": None}, "vrnt": empty_bundle("vrnt"),
+                      "trait": {"cols": [None], "grp": None}},
+             "steps": [S(name="reorder", kind="taxa", indices=[2, 0, 1]),
+                       S(name="sort", kind="taxa", keys=None, generic=True, axis=-2, alt_axis=-2),
+                       S(name="select", kind="taxa", indices=[2, 0], generic=True, axis=1, alt_axis=1),
+                       S(name="group", kind="taxa", axis=2, alt_axis=2),
+                       S(name="append", kind="taxa", form="raw", operand={"mat": [[[[900]]]], "cols": [[9], [1]]}),
+                       S(name="remove", kind="taxa", obj={"int": 0}),
+                       S(name="delete", kind="taxa", obj={"list": [-1]})]},
+            {"kind": "hist", "cls": "DenseFourWayDHAdditiveGenicVarianceMatrix",
+             "init": {"mat": [[[[[1000 * a + 100 * b + 10 * c + e, 5000 + 1000 * a + 100 * b + 10 * c + e]
+                                 for e in range(2)] for c in range(2)] for b in range(2)] for a in range(2)],
+                      "taxa": {"cols": [[1, 0], [2, 1]], "grp": None}, "vrnt": empty_bundle("vrnt"),
+                      "trait": {"cols": [[4, 3]], "grp": None}},
+             "steps": [S(name="reorder", kind="taxa", indices=[1, 0], generic=True, axis=3, alt_axis=3),
+                       S(name="group", kind="taxa"),
+                       S(name="sort", kind="trait", keys=None, axis=4, alt_axis=-1),
+                       S(name="reorder", kind="trait", indices=[1, 0], axis=4, alt_axis=4),
+                       S(name="sort", kind="taxa", keys=[[1, 0]], axis=2, alt_axis=-3)]},
+            {"kind": "hist", "cls": "DenseFourWayDHAdditiveGenicVarianceMatrix",
+             "init": {"mat": [[[[[1000 * a + 100 * b + 10 * c + e, 5000 + 1000 * a + 100 * b + 10 * c + e]
+                                 for e in range(2)] for c in range(2)] for b in range(2)] for a in range(2)],
+                      "taxa": {"cols": [None, None], "grp": None}, "vrnt": empty_bundle("vrnt"),
+                      "trait": {"cols": [[4, 3]], "grp": None}},
+             "steps": [S(name="remove", kind="trait", obj={"int": 0}, axis=4, alt_axis=4),
+                       S(name="incorp", kind="trait", obj={"int": 0}, axis=4, alt_axis=4, form="raw",
+                         operand={"mat": [[[[[70 + 8 * a + 4 * b + 2 * c + e] for e in range(2)] for c in range(2)]
+                                           for b in range(2)] for a in range(2)], "cols": [[9]]}),
+                       S(name="select", kind="trait", indices=[1, 0, 1], axis=4, alt_axis=-1),
+                       S(name="reorder", kind="taxa", indices=[1, 0]),
+                       S(name="adjoin", kind="trait", axis=4, alt_axis=4, form="obj",
+                         operand={"mat": [[[[[170 + 8 * a + 4 * b + 2 * c + e] for e in range(2)] for c in range(2)]
+                                           for b in range(2)] for a in range(2)], "cols": [[11]]})]},
+            # ---- numpy.insert positions as an UNSORTED list and as a boolean ndarray (values follow their positions);
+            #      non-contiguous input arrays
+            {"kind": "hist", "cls": P, "init": pinit, "layout": "strided",
+             "steps": [S(name="insert", kind="taxa", obj={"list": [3, 1]}, operand=opd_t2, axis=1, alt_axis=-2, form="raw"),
+                       S(name="incorp", kind="taxa", obj={"mask": [False, True, False, False, True, False, False]}, axis=1,
+                         alt_axis=1, form="obj",
+                         operand={"mat": [[[70, 71, 72], [73, 74, 75]], [[76, 77, 78], [79, 80, 81]]],
+                                  "cols": [[60, 61], [1, 2]]}),
+                       S(name="incorp", kind="vrnt", obj={"list": [-1, 0, 2]}, axis=2, alt_axis=-1, form="raw",
+                         operand={"mat": [[[100 + 3 * t + j for j in range(3)] for t in range(8)],
+                                          [[-120 + 3 * t + j for j in range(3)] for t in range(8)]],
+                                  "cols": v9([2, 1, 1], [9, 8, 7], [40, 41, 42])}),
+                       S(name="group", kind="vrnt", axis=2, alt_axis=2),
+                       S(name="group", kind="taxa", axis=1, alt_axis=1),
+                       S(name="select", kind="vrnt", indices=[2, 0, -2], axis=2, alt_axis=2, on=0),
+                       S(name="delete", kind="taxa", obj={"int": 1}, axis=1, alt_axis=1, on=0)]},
+            # ---- Fortran-ordered data, an axis longer than 256 entries, int32 / tuple index arguments
+            {"kind": "hist", "cls": "DenseTaxaVariantMatrix", "layout": "F", "big": True,
+             "init": {"mat": [[[3 * i], [3 * i + 1]] for i in range(300)],
+                      "taxa": {"cols": [[(7 * i) % 300 for i in range(300)], [1 + (i % 3) for i in range(300)]], "grp": None},
+                      "vrnt": {"cols": v9([2, 1], [5, 5], [0, 1]), "grp": None}, "trait": empty_bundle("trait")},
+             "steps": [S(name="group", kind="taxa"),
+                       S(name="select", kind="taxa", indices=[299, 128, 255, 256, 0, -1, 130], as_array="int32"),
+                       S(name="select", kind="taxa", indices=[200, 131, 290], as_array="tuple", on=0),
+                       S(name="remove", kind="taxa", obj={"slice": [None, 200, None]}, on=0),
+                       S(name="sort", kind="taxa", keys=None, on=0),
+                       S(name="is_grouped", kind="taxa", on=0)]},
+            # ---- genotyping hands the input's label arrays (without a mask: the data too) to the output
+            {"kind": "gt", "proto": "masked_phased", "invert": False,
+             "init": dict(pinit, vrnt={"cols": v9([2, 1, 1], [5, 7, 6]), "grp": None}), "prep": [],
+             "after": [S(target="out", name="reorder", kind="taxa"), S(target="in", name="sort", kind="vrnt", keys=None),
+                       S(target="out", name="group", kind="vrnt")]},
+            {"kind": "gt", "proto": "unphased", "invert": False, "init": pinit,
+             "prep": [S(name="group", kind="vrnt", axis=2, alt_axis=2)],
+             "after": [S(target="out", name="sort", kind="taxa", keys=None), S(target="in", name="reorder", kind="vrnt")]},
             # square classes: block-diagonal adjoin / append, both axes selected / deleted / sorted
             {"kind": "hist", "cls": "DenseMolecularCoancestryMatrix", "init": sq,
              "steps": [S(name="adjoin", kind="taxa", operand={"mat": [[[70]]], "cols": [[9], [2]]}, raw=True),
@@ -991,6 +1566,8 @@ class C03(Prop):
                 out.append(np_case(rng))
             elif r < 0.2:
                 out.append(gen_gt(rng))
+            elif r < 0.215:
+                out.append(gen_big(rng))
             else:
                 out.append(gen_history(rng))
         return out
@@ -1082,12 +1659,31 @@ class C03(Prop):
             return [r]
         if case["kind"] == "gt":
             _, _, outc, masked, unphase = GT_PROTOS[case["proto"]]
-            return [{"op": "c03.step", "sch": schema("DensePhasedGenotypeMatrix"), "st": obs["pre"],
+            reqs = [{"op": "c03.step", "sch": schema("DensePhasedGenotypeMatrix"), "st": obs["pre"],
                      "do": {"name": "genotype", "masked": masked, "invert": bool(case["invert"]), "unphase": unphase}},
                     {"op": "c03.spec_step", "sch": schema(outc), "pre": obs["ref"], "operands": [],
                      "post": obs["post"], "fill": None}]
-        sch = schema(case["cls"])
-        axes = {kk: CLASSES[case["cls"]][kk] for kk in KINDS}
+            for al in obs.get("alias", []):
+                if "who" in al and "unreadable" not in al["after"]:
+                    reqs.append({"op": "c03.spec_step", "sch": schema(al["cls"]), "pre": al["before"], "operands": [],
+                                 "post": al["after"], "fill": None})
+            return reqs
+        cname = case["cls"]
+        sch = schema(cname)
+        axes = {kk: CLASSES[cname][kk] for kk in KINDS}
+        nd = is_nd(cname)
+        ndkw = {"r": len(CLASSES[cname]["taxa"]), "pure_drops_other": bool(CLASSES[cname].get("pure_drops_other"))}
+
+        def step_req(pre, d):
+            if nd:
+                return dict({"op": "c03.nd_step", "st": pre, "do": d}, **ndkw)
+            return {"op": "c03.step", "sch": sch, "st": pre, "do": d}
+
+        def spec_req(pre, operands, post, fill):
+            if nd:
+                return dict({"op": "c03.nd_spec", "pre": pre, "operands": operands, "post": post, "fill": fill}, **ndkw)
+            return {"op": "c03.spec_step", "sch": sch, "pre": pre, "operands": operands, "post": post, "fill": fill}
+
         reqs = []
         for step, rec in zip(case["steps"], obs["steps"]):
             d = self._drv_step(step)
@@ -1096,7 +1692,7 @@ class C03(Prop):
             k = step["kind"]
             if step["name"] == "concat":
                 d["others"] = [self._operand_state(pre, k, o) for o in step["others"]]
-            reqs.append({"op": "c03.step", "sch": sch, "st": pre, "do": d})
+            reqs.append(step_req(pre, d))
             if "post" in rec:
                 operands = []
                 if "operand" in step:
@@ -1104,10 +1700,26 @@ class C03(Prop):
                 if step["name"] == "concat":
                     operands = [self._operand_state(prex, k, o, pad=True) for o in step["others"]]
                 # growing a square matrix leaves cross blocks that no operand supplies: the class's fill value
-                fill = NAN_CODE if (is_square(case["cls"]) and k == "taxa" and step["name"] in
+                fill = NAN_CODE if (is_square(cname) and k == "taxa" and step["name"] in
                                     ("adjoin", "append", "insert", "incorp", "concat")) else None
-                reqs.append({"op": "c03.spec_step", "sch": sch, "pre": pre, "operands": operands,
-                             "post": rec["post"], "fill": fill})
+                reqs.append(spec_req(pre, operands, rec["post"], fill))
+            # objects the step did not operate on, but whose public state differs from the one last verified:
+            # the attachment / consistency / partition Spec of each against its own earlier state
+            for ch in rec.get("changed", []):
+                if isinstance(ch["after"], dict) and "unreadable" not in ch["after"]:
+                    reqs.append(spec_req(ch["before"], [], ch["after"], None))
+        if not nd and obs["steps"]:
+            # the heap / aliasing model on the whole history: which arrays the live objects share after every step
+            hs = []
+            for step, rec in zip(case["steps"], obs["steps"]):
+                d = self._drv_step(step)
+                d["on"] = rec["on"]
+                d["skip"] = bool(rec.get("error")) or "unreadable" in rec
+                if step["name"] == "concat":
+                    d["others"] = [self._operand_state(rec["pre"], step["kind"], o) for o in step["others"]]
+                hs.append(d)
+            reqs.append({"op": "c03.heap_run", "sch": sch, "init": obs["steps"][0]["pre"] if obs["steps"][0]["on"] == 0
+                         else case["init"], "steps": hs, "fill": NAN_CODE, "none_code": NONE_CODE})
         return reqs
 
     @staticmethod
@@ -1117,8 +1729,7 @@ class C03(Prop):
         what the Spec expects the result to carry for them"""
         cols = list(opd["cols"])
         if pad:
-            m = opd["mat"]
-            shp = (len(m), len(m[0]) if m else 0, len(m[0][0]) if m and m[0] else 0)
+            shp = numpy.array(opd["mat"], dtype="int64").shape
             for ci in PAD_COLS[k]:
                 if cols[ci] is None and pre[k]["cols"][ci] is not None:
                     cols[ci] = [NONE_CODE] * shp[pre["_axes"][k][0]]
@@ -1139,7 +1750,14 @@ class C03(Prop):
             if "post" in rec:
                 a_spec = answers[ai]
                 ai += 1
-            for a in (a_model, a_spec):
+            a_changed = []
+            for ch in rec.get("changed", []):
+                if isinstance(ch["after"], dict) and "unreadable" not in ch["after"]:
+                    a_changed.append(answers[ai])
+                    ai += 1
+                else:
+                    a_changed.append(None)
+            for a in [a_model, a_spec] + a_changed:
                 if a is not None and "err" in a:
                     raise RuntimeError("driver error: " + a["err"])
             m = a_model["ok"]
@@ -1153,6 +1771,9 @@ class C03(Prop):
                 corr = m.get("st") == rec["post"]
             else:
                 corr = ("idx" in m and m["idx"] == rec["value"]) or ("bool" in m and m["bool"] == rec["value"])
+            # the model is purely functional: an operation on one object never changes another one
+            if rec.get("changed"):
+                corr = False
             # ---- spec on the implementation
             spec = True
             if rec.get("unreadable"):
@@ -1182,19 +1803,70 @@ class C03(Prop):
                     spec = False
                     why.append("mutating operation differs from its non-mutating counterpart: "
                                + str(rec["pure_counterpart"])[:160])
-            if "other_form" in rec or rec.get("error"):
-                other = rec.get("other_form")
-                if other is not None:
+            # every other live object: its rows / columns must still carry the labels and cells they had
+            for ch, a in zip(rec.get("changed", []), a_changed):
+                if a is None:
+                    spec = False
+                    why.append(f"object {ch['id']} (not operated on) cannot be read back any more: "
+                               + str(ch["after"])[:120])
+                elif not a["ok"]["ok"]:
+                    sa = a["ok"]
+                    spec = False
+                    why.append(f"object {ch['id']}, which this step did not operate on, no longer carries its own "
+                               f"labels / cells: consistent={sa['consistent']} attached={sa['attached']} "
+                               f"partition={sa['partition']} {sa['detail']}")
+            other = rec.get("other_form")
+            if other is not None and not rec.get("unreadable"):
+                if rec.get("error"):
+                    same = isinstance(other, dict) and other.get("error") == rec["error"]
+                else:
                     mine = rec.get("post") if "post" in rec else {"value": rec.get("value")}
-                    if other != mine:
-                        spec = False
-                        why.append("generic and specific forms differ: " + str(other)[:160])
+                    same = other == mine
+                if not same:
+                    spec = False
+                    why.append("generic and specific forms differ: " + str(other)[:160])
             out.append({"corr": corr, "spec": spec, "why": "; ".join(why),
                         "trigger": _trigger(case["cls"], step, rec["pre"]),
-                        "model": m if not corr else None})
+                        "model": m if not corr else None,
+                        "changed": [c["id"] for c in rec.get("changed", [])]})
             if not spec:
                 break
         return out
+
+    @staticmethod
+    def _model_shares(table):
+        """the sharing relation of one address table of the heap model, in the harness's field names"""
+        def fields(o):
+            out = {"mat": o["mat"]}
+            for k in KINDS:
+                for name, a in zip(COLS[k], o[k]["cols"]):
+                    out[name] = a
+                if k in GRP_ATTR and o[k]["grp"] is not None:
+                    for sfx, a in zip(("_name", "_stix", "_spix", "_len"), o[k]["grp"]):
+                        out[GRP_ATTR[k] + sfx] = a
+            return out
+        fs = [fields(o) for o in table]
+        rel = set()
+        for a in range(len(fs)):
+            for b in range(a + 1, len(fs)):
+                for f, x in fs[a].items():
+                    if x is not None and fs[b].get(f) == x:
+                        rel.add((a, b, f))
+        return rel
+
+    def _heap_verdict(self, case, obs, answer):
+        """every pair of arrays the implementation shares between two live objects must be shared in the heap model
+        too (the model may share more: a defensive copy in the code is fine)"""
+        tables = answer["ok"]["tables"]
+        for i, (rec, tab) in enumerate(zip(obs["steps"], tables)):
+            if "shares" not in rec:
+                continue
+            model = self._model_shares(tab)
+            extra = [tuple(x) for x in rec["shares"] if tuple(x) not in model]
+            if extra:
+                return False, (f"step {i} ({case['steps'][i]['name']}_{case['steps'][i]['kind']}): the implementation's objects "
+                               f"share arrays the heap model allocates separately: {extra[:4]}")
+        return True, ""
 
     def judge(self, case, obs, answers):
         for a in answers:
@@ -1209,12 +1881,36 @@ class C03(Prop):
             m, sp = answers[0]["ok"], answers[1]["ok"]
             corr = m.get("st") == obs["post"]
             spec = bool(sp["ok"]) and obs["input_unchanged"]
+            alias_detail = ""
+            ai = 2
+            for al in obs.get("alias", []):
+                if "error" in al:
+                    spec = False
+                    alias_detail += f" | {al['step']['name']}_{al['step']['kind']} on the {al['step']['target']}put raised: {al['error']}"
+                    continue
+                corr = False          # the model is functional: the two objects are independent
+                if "unreadable" in al["after"]:
+                    spec = False
+                    alias_detail += f" | the {al['who']}put matrix cannot be read back after {al['step']['name']} on the other one"
+                    continue
+                sa = answers[ai]["ok"]
+                ai += 1
+                if not sa["ok"]:
+                    spec = False
+                    alias_detail += (f" | {al['step']['name']}_{al['step']['kind']} on the {al['step']['target']}put matrix "
+                                     f"changed the {al['who']}put matrix, which no longer carries its own labels / cells: "
+                                     f"consistent={sa['consistent']} attached={sa['attached']} partition={sa['partition']} "
+                                     f"{sa['detail']}")
             dropped = len(obs["pre"]["vrnt"]["cols"][1] or []) != len(obs["post"]["vrnt"]["cols"][1] or [])
             return {"corr": corr, "spec": spec, "nontrivial": dropped and obs["pre"]["vrnt"]["grp"] is not None,
                     "detail": (f"genotype[{case['proto']} invert={case['invert']}] consistent={sp['consistent']} "
                                f"attached={sp['attached']} partition={sp['partition']} {sp['detail']} "
-                               f"input_unchanged={obs['input_unchanged']}"
+                               f"input_unchanged={obs['input_unchanged']}" + alias_detail
                                + ("" if corr else f" model={str(m)[:300]} impl={str(obs['post'])[:300]}"))}
+        heap_ok, heap_detail = True, ""
+        if not is_nd(case["cls"]) and obs["steps"]:
+            heap_ok, heap_detail = self._heap_verdict(case, obs, answers[-1])
+            answers = answers[:-1]
         sv = self._judge_steps(case, obs, answers)
         spec = True
         corr = True
@@ -1227,8 +1923,15 @@ class C03(Prop):
                 break
             if not v["corr"]:
                 corr = False
-                detail.append(f"step {i} ({case['steps'][i]['name']}): model {str(v['model'])[:300]} != "
-                              f"implementation {str(obs['steps'][i].get('post', obs['steps'][i].get('error')))[:300]}")
+                if v.get("changed"):
+                    detail.append(f"step {i} ({case['steps'][i]['name']}): objects {v['changed']} that the step did "
+                                  f"not operate on changed their public state")
+                else:
+                    detail.append(f"step {i} ({case['steps'][i]['name']}): model {str(v['model'])[:300]} != "
+                                  f"implementation {str(obs['steps'][i].get('post', obs['steps'][i].get('error')))[:300]}")
+        if spec and not heap_ok:
+            corr = False
+            detail.append(heap_detail)
         executed = [s for s, r in zip(case["steps"], obs["steps"]) if not r.get("error")]
         nontriv = len(executed) >= 2 and any(
             s["name"] in ("select", "delete", "remove", "reorder", "sort", "group", "insert", "incorp", "adjoin",
@@ -1244,7 +1947,10 @@ class C03(Prop):
         if case.get("kind") != "hist" or not isinstance(obs, dict) or "steps" not in obs:
             return sig
         try:
-            sv = self._judge_steps(case, obs, verdict["answers"])
+            ans = verdict["answers"]
+            if not is_nd(case["cls"]) and obs["steps"]:
+                ans = ans[:-1]
+            sv = self._judge_steps(case, obs, ans)
         except Exception:
             return sig
         for v in sv:
@@ -1254,17 +1960,24 @@ class C03(Prop):
         return sig
 
     def shrink(self, case):
+        """validity-preserving candidates only: drop the last step; drop a step that neither creates an object nor
+        changes a length (reorder / sort / group / ungroup / lexsort / is_grouped) — every later step then still
+        meets the lengths and the objects it was generated for"""
         if case.get("kind") != "hist":
             return
         steps = case["steps"]
-        for i in range(len(steps)):
-            c = dict(case)
-            c["steps"] = steps[:i] + steps[i + 1:]
-            if c["steps"]:
-                yield c
         if len(steps) > 1:
             c = dict(case)
             c["steps"] = steps[:-1]
+            yield c
+        for i in range(len(steps) - 1):
+            if steps[i]["name"] in ("reorder", "sort", "group", "ungroup", "lexsort", "is_grouped"):
+                c = dict(case)
+                c["steps"] = steps[:i] + steps[i + 1:]
+                yield c
+        if case.get("layout"):
+            c = dict(case)
+            c.pop("layout")
             yield c
 
     # ------------------------------------------------------------------ self-test mutants
@@ -1419,7 +2132,134 @@ class C03(Prop):
                 taxa_grp=None if self.taxa_grp is None else numpy.delete(self.taxa_grp, obj, axis=0),
                 trait=self.trait, **kwargs)
 
+        # ---- round 3: several live objects / aliasing, more than two square axes, label precedence, layouts, sizes
+        from pybrops.core.mat.DenseSquareTaxaMatrix import DenseSquareTaxaMatrix
+        from pybrops.core.mat.DenseTraitMatrix import DenseTraitMatrix
+        from pybrops.breed.prot.gt.DenseUnphasedGenotyping import DenseUnphasedGenotyping
+        DenseTaxaMatrix_reorder_taxa = DenseTaxaMatrix.__dict__["reorder_taxa"]
+        DenseSquareTaxaMatrix_reorder_taxa = DenseSquareTaxaMatrix.__dict__["reorder_taxa"]
+        DenseSquareTaxaMatrix_select_taxa = DenseSquareTaxaMatrix.__dict__["select_taxa"]
+        DenseTraitMatrix_incorp_trait = DenseTraitMatrix.__dict__["incorp_trait"]
+        DenseTaxaMatrix_adjoin_taxa = DenseTaxaMatrix.__dict__["adjoin_taxa"]
+        DenseTaxaMatrix_is_grouped_taxa = DenseTaxaMatrix.__dict__["is_grouped_taxa"]
+
+        def reorder_taxa_labels_in_place(self, indices, **kwargs):
+            taxa, grp = self._taxa, self._taxa_grp
+            DenseTaxaMatrix_reorder_taxa(self, indices, **kwargs)
+            if taxa is not None:
+                taxa[:] = self._taxa
+                self._taxa = taxa
+            if grp is not None:
+                grp[:] = self._taxa_grp
+                self._taxa_grp = grp
+
+        def reorder_vrnt_positions_in_place(self, indices, **kwargs):
+            pos = self._vrnt_phypos
+            DenseVariantMatrix_reorder_vrnt(self, indices, **kwargs)
+            if pos is not None:
+                pos[:] = self._vrnt_phypos
+                self._vrnt_phypos = pos
+
+        def square_reorder_first_two_axes(self, indices, **kwargs):
+            mat = self._mat
+            DenseSquareTaxaMatrix_reorder_taxa(self, indices, **kwargs)
+            self._mat = mat[numpy.ix_(indices, indices)]
+
+        def square_select_first_two_axes(self, indices, **kwargs):
+            out = DenseSquareTaxaMatrix_select_taxa(self, indices, **kwargs)
+            if len(self.square_taxa_axes) > 2:
+                m = numpy.take(numpy.take(self._mat, indices, axis=0), indices, axis=1)
+                ix = numpy.arange(len(indices)) % self._mat.shape[2]
+                for ax in self.square_taxa_axes[2:]:
+                    m = numpy.take(m, ix, axis=ax)
+                out._mat = m
+            return out
+
+        def incorp_trait_object_names_win(self, obj, values, trait=None, **kwargs):
+            if isinstance(values, self.__class__) and values.trait is not None:
+                trait = values.trait
+            DenseTraitMatrix_incorp_trait(self, obj, values, trait=trait, **kwargs)
+
+        def adjoin_taxa_object_groups_win(self, values, taxa=None, taxa_grp=None, **kwargs):
+            if isinstance(values, self.__class__) and values.taxa_grp is not None:
+                taxa_grp = values.taxa_grp
+            return DenseTaxaMatrix_adjoin_taxa(self, values, taxa=taxa, taxa_grp=taxa_grp, **kwargs)
+
+        def is_grouped_taxa_memo(self, **kwargs):
+            if not hasattr(self, "_grouped_memo"):
+                self._grouped_memo = DenseTaxaMatrix_is_grouped_taxa(self, **kwargs)
+            return self._grouped_memo
+
+        def select_taxa_int8_indices(self, indices, **kwargs):
+            return DenseTaxaMatrix_select_taxa(self, numpy.asarray(indices).astype("int8"), **kwargs)
+
+        def select_vrnt_label_base_buffer(self, indices, **kwargs):
+            out = DenseVariantMatrix_select_vrnt(self, indices, **kwargs)
+            p = self._vrnt_phypos
+            if p is not None and p.base is not None and p.base.ndim == 1:
+                out._vrnt_phypos = numpy.take(p.base, indices)[:out.nvrnt]
+            return out
+
+        unphased_genotype = DenseUnphasedGenotyping.__dict__["genotype"]
+
+        def gt_unphased_then_sort_in_place(self, pgmat, miscout=None, **kwargs):
+            out = unphased_genotype(self, pgmat, miscout, **kwargs)
+            # "outputs are always delivered sorted by name": done on the arrays the input still owns
+            if out._taxa is not None and all(x is not None for x in out._taxa):
+                ix = numpy.argsort(out._taxa, kind="stable")
+                out._mat = out._mat[ix]
+                out._taxa[:] = out._taxa[ix]
+                if out._taxa_grp is not None:
+                    out._taxa_grp = out._taxa_grp[ix]
+                out.taxa_grp_name = out.taxa_grp_stix = out.taxa_grp_spix = out.taxa_grp_len = None
+            return out
+
+        def select_taxa_group_view(self, indices, **kwargs):
+            # contiguous ascending selections return a VIEW of the receiver's group array: same values, new aliasing
+            out = DenseTaxaMatrix_select_taxa(self, indices, **kwargs)
+            ix = numpy.asarray(indices)
+            if (self._taxa_grp is not None and ix.ndim == 1 and len(ix) > 0 and ix[0] >= 0
+                    and numpy.all(numpy.diff(ix) == 1)):
+                out._taxa_grp = self._taxa_grp[int(ix[0]):int(ix[-1]) + 1]
+            return out
+
+        def append_taxa_fixed_width_names(self, values, taxa=None, taxa_grp=None, **kwargs):
+            DenseTaxaMatrix_append_taxa(self, values, taxa=taxa, taxa_grp=taxa_grp, **kwargs)
+            if self._taxa is not None and len(self._taxa) and all(isinstance(x, str) for x in self._taxa):
+                # names kept in a fixed-width string array sized by the first name: longer names are cut
+                self._taxa = self._taxa.astype(f"<U{len(self._taxa[0])}").astype(object)
+
+        def reorder_vrnt_positions_int32(self, indices, **kwargs):
+            DenseVariantMatrix_reorder_vrnt(self, indices, **kwargs)
+            if self._vrnt_phypos is not None:
+                self._vrnt_phypos = self._vrnt_phypos.astype("int32").astype("int64")
+
         return [
+            ("append_taxa_names_cut_to_fixed_width",
+             lambda: patch(DenseTaxaMatrix, "append_taxa", append_taxa_fixed_width_names)),
+            ("reorder_vrnt_positions_through_int32",
+             lambda: patch(DenseVariantMatrix, "reorder_vrnt", reorder_vrnt_positions_int32)),
+            ("select_taxa_returns_view_of_receiver_groups",
+             lambda: patch(DenseTaxaMatrix, "select_taxa", select_taxa_group_view)),
+            ("reorder_taxa_permutes_label_arrays_in_place",
+             lambda: patch(DenseTaxaMatrix, "reorder_taxa", reorder_taxa_labels_in_place)),
+            ("reorder_vrnt_permutes_positions_in_place",
+             lambda: patch(DenseVariantMatrix, "reorder_vrnt", reorder_vrnt_positions_in_place)),
+            ("square_reorder_taxa_first_two_axes_only",
+             lambda: patch(DenseSquareTaxaMatrix, "reorder_taxa", square_reorder_first_two_axes)),
+            ("square_select_taxa_first_two_axes_only",
+             lambda: patch(DenseSquareTaxaMatrix, "select_taxa", square_select_first_two_axes)),
+            ("incorp_trait_object_names_beat_keyword",
+             lambda: patch(DenseTraitMatrix, "incorp_trait", incorp_trait_object_names_win)),
+            ("adjoin_taxa_object_groups_beat_keyword",
+             lambda: patch(DenseTaxaMatrix, "adjoin_taxa", adjoin_taxa_object_groups_win)),
+            ("is_grouped_taxa_memoised", lambda: patch(DenseTaxaMatrix, "is_grouped_taxa", is_grouped_taxa_memo)),
+            ("select_taxa_indices_cast_to_int8",
+             lambda: patch(DenseTaxaMatrix, "select_taxa", select_taxa_int8_indices)),
+            ("select_vrnt_reads_label_base_buffer",
+             lambda: patch(DenseVariantMatrix, "select_vrnt", select_vrnt_label_base_buffer)),
+            ("unphased_genotyping_sorts_shared_names_in_place",
+             lambda: patch(DenseUnphasedGenotyping, "genotype", gt_unphased_then_sort_in_place)),
             ("breeding_value_delete_taxa_from_stored_values",
              lambda: patch(DenseBreedingValueMatrix, "delete_taxa", bv_delete_taxa_stored_values)),
             ("masked_genotyping_invert_metadata_from_wrong_mask",
